@@ -72,7 +72,8 @@ prop("C17", [
     # what goes into the advertisement: tri-state defaults, $self6, prefixes, header fields; discharges the serialiser's precondition
     dict(engine="verus", unit="rabuild", fns=["RaAdvService::build_announcement_pure", "NDOptions::add_option"]),
     # "null suppressing an option" at the loader: tri-state keys of an interface (R9 slices of parse_interface arms)
-    dict(engine="verus", unit="configleaf", fns=["ConfigValue::from_option", "arm_captive_portal", "arm_lifetime", "parse_duration", "parse_string"]),
+    dict(engine="verus", unit="configleaf", fns=["ConfigValue::from_option", "ConfigValue::unwrap_or", "ConfigValue::or", "ConfigValue::as_ref", "ConfigValue::base_default",
+                                                  "ConfigValue::always_unwrap_or", "ConfigValue::apply_default", "arm_captive_portal", "arm_lifetime", "parse_duration", "parse_string"]),
 ], explanation="the octets produced by icmppkt::serialise_router_advertisement equal, for every RtrAdvertisement value and any number of options, the RFC 4861/8106/8781/8910 encoding of the (clamped) values; message length a multiple of 8; each option 8 x its length octet long",
     assumptions=["the six SerialiseInto impls append exactly the big-endian octets (assumed in Verus; checked by the Kani set radv_ser: scalars and Ipv6Addr complete, byte slices / str bounded to 3 / 2 octets)",
                  "str operations of the DNSSL arm (strip_suffix, split('.'), len, dnssl_name_ok's iterator chain) and slice::chunks are opaque stubs with their std meaning (split: labels and dots add up to the name)",
